@@ -5,34 +5,50 @@ ENTRY = dict(
         title="Generated subexperiments and coefficients follow the documented contract",
         prop_file="Properties/C05.v",
         corr_files=["Corr/C05Corr.v"],
-        theorems=["c05_generate_is_core", "c05_tables", "c05_coeffs", "c05_chosen", "c05_coeffs_sum", "c05_coeffs_sign",
-                  "c05_kappa_nonneg", "c05_exact_total", "c05_exact_coeff", "c05_sorted", "c05_counts_layout", "c05_shape",
-                  "c05_build_total", "c05_spec_exp", "c05_observable_bits", "c05_qpd_bits", "c05_projection", "c05_scans", "c05_bases_aligned", "c05_project_bound", "c05_refuse_types",
-                  "c05_refuse_num_samples", "c05_refuse_suffix", "c05_refuse_1q_unseparated",
-                  "c05_c04_dictionary", "c05_inf_budget_end_to_end", "c05_coeffs_sum_c04_partial", "c05_groups_from_c11",
-                  "c05_projection_all_partitions", "c05_facts"],
+        theorems=["c05_generate_is_core", "c05_tables", "c05_coeffs", "c05_coeffs_distinct", "c05_chosen", "c05_coeffs_sum",
+                  "c05_coeff_value_sign", "c05_coeffs_sign", "c05_kappa_nonneg", "c05_exact_total", "c05_exact_coeff", "c05_sorted",
+                  "c05_counts_layout", "c05_shape", "c05_build_total", "c05_spec_exp", "c05_observable_bits", "c05_qpd_bits",
+                  "c05_projection", "c05_scans", "c05_bases_aligned", "c05_bases_aligned_full", "c05_project_bound",
+                  "c05_scan_valid", "c05_generate_total",
+                  "c05_refuse_types", "c05_refuse_num_samples", "c05_refuse_suffix", "c05_refuse_1q_unseparated",
+                  "c05_c04_dictionary", "c05_inf_budget_sum_sign", "c05_inf_budget_exact", "c05_generate_inf",
+                  "c05_coeffs_sum_c04_partial", "c05_groups_from_c11", "c05_projection_all_partitions", "c05_facts"],
         allowed_axioms=[],
         facts=["value_error_sites", "c05_label_parse", "c05_loops", "c05_group_loop_calls", "c05_f2_guard", "c05_pass_order", "c05_formulas", "c05_dummy_index",
                "c05_register_names"],
         harness="c05",
-        level_text="Unbounded theorems (any number of partitions, cuts, samples, groups, instructions; closed under the global context) "
-                   "about the executable model of generate_cutting_experiments, which is composed of the C14 model of "
-                   "decompose_qpd_instructions, the C11 model of the measurement register/suffix and the C12 model of the three reset "
-                   "passes: a successful call is one run of the shared second half on explicitly known bases, partition table and groups "
-                   "and only the two documented argument forms succeed; one coefficient per entry of the weights dictionary, equal to "
-                   "w/sum(w) * kappa * sign(prod c) with the entry's weight type; sum|coeff| = kappa when no chosen product is 0; sign law; "
-                   "with the exact infinite-budget weights (every joint map of non-zero probability once, weight prod|c|/kappa_j) the total "
-                   "weight is 1 and each coefficient EQUALS prod_j c_{j,m_j}; the coefficient order is a stable descending sort of the "
-                   "dictionary (permutation, sorted, equal weights keep dictionary order); per partition #coefficients x #groups circuits, "
-                   "element z*G+j built from sample z and group j, partitions in the observables' order; every built circuit IS (before the "
-                   "passes) the C14 splice of the chosen maps with QPD measurement k on clbit nc0+nobs+k followed by the C11 rotation/"
-                   "measurement suffix on clbits nc0..nc0+nobs-1, registers old ++ observable ++ qpd, and after the passes the same up to "
-                   "deleted resets with no placeholder or marker left; the placeholder labelled _k receives joint[k] in every partition, and when every cut id is an index into `bases` the ids are exactly 0..n-1 and bases[k] is the basis of a placeholder labelled _k (so coefficient and circuit use the same map of the same basis); "
-                   "a totality theorem for the per-circuit step (valid request, no earlier observable register, matching width, measured qubits in range => always the declared circuit); COMPOSITION with the oracles' models (Proofs/ExperimentsC.v): every dictionary the C04 model (gen_weights + final_sort) returns, for any budget, has distinct keys, each selecting a coefficient in every basis, and no chosen product is 0; for the infinite budget the coefficient clauses hold end to end with NO hypothesis on the weights (one coefficient per dictionary entry, sum|coeff| = prod kappa, sign = sign of the product); for finite budgets sum|coeff| = prod kappa is proved only under positivity of the returned weights (c05_coeffs_sum_c04_partial: no C04 theorem gives that positivity yet); the groups of the C11 model (collection) are as many as the oracle's commuting groups, each with general observable = most_general_observable of its members and pauli_indices = its ascending non-identity positions; and for ANY number of partitions a circuit of partition l is built from the sample's joint map and its placeholder labelled _k receives joint[k]; refusal theorems for the type mismatches, num_samples < 1 / NaN / -inf, a missing or non-numeric label suffix and "
-                   "one-qubit placeholders in an unseparated circuit. The model is run inside Coq on every input the implementation ran "
-                   "on (about 310 generated calls per quick run, about 2900 in the thorough tier) and compared circuit by circuit, instruction by instruction, register "
-                   "layout exactly, coefficient types exactly, coefficient values exactly where binary64 arithmetic is exact and within "
-                   "1e-12*kappa otherwise.",
+        level_text="37 unbounded theorems, all closed under the global context, about the executable model of "
+                   "generate_cutting_experiments (composed of the C14 model of decompose_qpd_instructions, the C11 model of the measurement "
+                   "register/suffix and the C12 model of the three reset passes). "
+                   "TOTALITY (separated form, c05_generate_total): an in-domain request (num_samples >= 1 or inf; groups built; subcircuits "
+                   "without an observable_measurements register, two-qubit placeholders or unsuffixed placeholders; observable labels are circuit "
+                   "labels, groups of the circuit's width measuring its qubits; every joint map of the dictionary selects a coefficient in every "
+                   "basis and gives every placeholder an in-range map id) is answered with Ok; the requests issued are valid C14 requests "
+                   "(c05_scan_valid) and the per-circuit step is total (c05_build_total). The unseparated form has no totality theorem (an Example "
+                   "runs it). "
+                   "SUCCESS-CASE theorems (premise `= Ok`, non-vacuous by the totality theorem): a successful call is one run of `core` and only "
+                   "the two documented argument forms succeed; coefficient z = w/sum(w) * kappa * sign(prod c) of the z-th sample of a stable "
+                   "descending sort (permutation, sorted, ties keep dictionary order), with the sample's weight type (c05_coeffs is a read-off for "
+                   "any association list; c05_coeffs_distinct adds, for distinct keys and positive weights, distinct sorted keys and a positive "
+                   "total); per partition #coefficients x #groups circuits, element z*G+j built from sample z and group j; every built circuit IS "
+                   "(before the passes) the C14 splice + C11 suffix with registers old ++ observable ++ qpd, QPD bit k on clbit nc0+nobs+k, "
+                   "observable bit k on nc0+k, measured indices inside the circuit; after the passes the same up to deleted resets (WHICH resets: "
+                   "C12/C19) with no placeholder or marker; the placeholder labelled _k receives joint[k] in every partition for any number of "
+                   "partitions. "
+                   "COEFFICIENT CLAUSES: sum|coeff| = prod kappa and the sign law on the coefficients `core` returns hold under the premises "
+                   "'weights positive' (+ 'no chosen product is 0' for the sum); with the dictionary of the C04 MODEL these premises are "
+                   "discharged for num_samples = inf (c05_inf_budget_sum_sign, and tied to generate/bases/N in c05_generate_inf), and for inf "
+                   "under no_subcutoff_map every coefficient EQUALS the product (c05_inf_budget_exact; false without that premise because "
+                   "sub-1e-14 maps are dropped); for FINITE budgets only 'no chosen product is 0' is discharged from C04 and weight positivity "
+                   "stays a premise (c05_coeffs_sum_c04_partial, c05_coeffs_sign). "
+                   "`bases`: if every cut id is below len(bases) (input precondition) the ids are exactly 0..n-1, and if all placeholders of a cut "
+                   "carry one basis handle (C10's output contract; the Python code does not check it) bases[k] is that handle "
+                   "(c05_bases_aligned_full). Groups of the C11 model: count and pauli_indices characterised (c05_groups_from_c11; the reader "
+                   "composes it with generate's groups argument). Refusal theorems (= Refused) for the type mismatches, num_samples < 1 / NaN / "
+                   "-inf, a missing or non-numeric suffix, one-qubit placeholders in an unseparated circuit. "
+                   "ONLY correspondence-tested (about 310 generated calls per quick run, about 2900 thorough; circuit by circuit, instruction by "
+                   "instruction, register layout, coefficient types exactly, values exactly where binary64 is exact else within 1e-12*kappa): that "
+                   "the model is the implementation; register NAMES, float/WeightType types of the coefficient entries, inputs untouched.",
         level_note=STD_NOTE + "No axioms. The weights dictionary (generate_qpd_weights: property C04) and the commuting groups "
                    "(ObservableCollection: property C11) are oracle INPUTS of the model: the harness re-reads the weights with the same numpy "
                    "seed and asks the real ObservableCollection. The model follows the REPAIRED behaviour for defect F2 (final resets removed "
@@ -51,6 +67,14 @@ ENTRY = dict(
             "to the source. The weight/num_samples types are local copies of those of Model/Weights.v (C04) so that the correspondence cone "
             "does not depend on the regenerated Facts.v; Proofs/ExperimentsP.v section I gives the conversion (of_wdict, of_num) and the "
             "equalities with Weights.qsum/qprod/cart/jointp for the C01 composition",
+            "KINDS OF PREMISES. Oracle (monitored per case): the weights dictionary / its positivity for finite budgets; sorting_perms_b "
+            "of the C04 model; ObservableCollection results. Input preconditions: those of c05_generate_total; 'every cut id < len(bases)' "
+            "and 'one basis handle per cut' in c05_bases_aligned(_full); kappa <> 0; a probability above 1e-14 in every basis; r <> []; "
+            "no_subcutoff_map for exactness. Success-case: `core/generate = Ok` in the read-off theorems (discharged on the domain of "
+            "c05_generate_total for the separated form)",
+            "OBSERVATION: neither the Python code nor the model compares the bases of the two halves of a cut (_get_bases_by_partition keeps "
+            "the last one it meets); a problem whose halves carry different bases is accepted and yields a coefficient from one basis and a "
+            "circuit half from the other. partition_problem never produces such a problem (C10)",
             "the composition theorems of section 8 take the C04 model's result r of gen_weights on probs_of(bases) and the C11 model's "
             "collection as GIVEN equations (they are statements about models glued by function application; the glued function is not "
             "run as a whole against the implementation — its three parts are, by the C04, C11 and C05 correspondences). Discharged "
